@@ -53,6 +53,17 @@ def booking_units(prog, core_only=True):
     return units
 
 
+def _only_called_from(prog, f, roots, seen):
+    """a private helper of the class all of whose call sites are in the named primitives of that class (or in other such helpers)"""
+    if not f.name.startswith('_') or f.name.startswith('__') or f.key in seen:
+        return False
+    seen = seen | {f.key}
+    callers = [g for g in prog.all_functions() if g is not f and any(isinstance(c, ast.Call) and call_name(c) == f.name for c in ast.walk(g.node))]
+    if not callers:
+        return False
+    return all(g.cls is f.cls and (g.name in roots or _only_called_from(prog, g, roots, seen)) for g in callers)
+
+
 def run(prog, check):
     check.explanation = EXPLANATION
     check.not_decided = ('that solved series sum to zero; user-written sectors outside the repository; consistency of imposed '
@@ -76,7 +87,8 @@ def run(prog, check):
                 recv = resolve_expr(recv, fsub)
             if recv is not None and isinstance(recv, ast.Subscript) and \
                     'EquationBlock' in unparse(recv.value) and 'NET_' in unparse(recv.slice):
-                ok = f.cls is not None and f.cls.name == 'ForexTransations' and f.name in ('_SendMoney', '_ReceiveMoney')
+                ok = f.cls is not None and f.cls.name == 'ForexTransations' and (
+                    f.name in ('_SendMoney', '_ReceiveMoney') or _only_called_from(prog, f, ('_SendMoney', '_ReceiveMoney'), set()))
                 fx_writers += 1
                 check.ob('C01.W', '%s::writes-FX(%s)' % (f.key, unparse(recv.slice)), ok, '%s:%d' % (f.module.rel, c.lineno),
                          'FX primitive' if ok else 'the FX position is written outside the two FX primitives', 'any cross-currency flow')
@@ -153,7 +165,7 @@ def run(prog, check):
                      'constant-named flow variable %s is defined on another sector by define-if-empty: a second %s targeting the same '
                      'sector books the flow again but the variable keeps the first definition' % (short(name_key), ci.name),
                      'two %s objects in one country / zone' % ci.name)
-    check.floor('C01.W', 6)
+    check.floor('C01.W', 3)
     check.floor('C01.R1', 12)
     check.floor('C01.R3', 3)
     if n_units < 7:
